@@ -173,6 +173,8 @@ impl Storage {
             batch
                 .put_kv(genesis_block_key, genesis_hash_and_txs_hash.as_slice())
                 .expect("batch put should be ok");
+            #[cfg(ckb_light_client_verif)]
+            crate::verif_hooks::point("write", "init_genesis_block:batch");
             batch.commit().expect("batch commit should be ok");
             self.update_last_state(&U256::zero(), &block.header(), &[]);
             let genesis_block_filter_hash: Byte32 = {
@@ -356,6 +358,8 @@ impl Storage {
             }
         }
 
+        #[cfg(ckb_light_client_verif)]
+        crate::verif_hooks::point("write", "update_filter_scripts:batch");
         batch.commit().expect("batch commit should be ok");
 
         if let Some(min_number) = min_block_number {
@@ -401,6 +405,8 @@ impl Storage {
         let key = Key::Meta(LAST_STATE_KEY).into_vec();
         let mut value = total_difficulty.to_le_bytes().to_vec();
         value.extend(tip_header.as_slice());
+        #[cfg(ckb_light_client_verif)]
+        crate::verif_hooks::point("write", "update_last_state:put");
         self.db
             .put(key, &value)
             .expect("db put last state should be ok");
@@ -429,6 +435,8 @@ impl Storage {
             value.extend(header.number().to_le_bytes());
             value.extend(header.hash().as_slice());
         }
+        #[cfg(ckb_light_client_verif)]
+        crate::verif_hooks::point("write", "update_last_n_headers:put");
         self.db
             .put(key, &value)
             .expect("db put last n headers should be ok");
@@ -455,6 +463,8 @@ impl Storage {
     pub fn remove_matched_blocks(&self, start_number: u64) {
         let mut key = Key::Meta(MATCHED_FILTER_BLOCKS_KEY).into_vec();
         key.extend(start_number.to_be_bytes());
+        #[cfg(ckb_light_client_verif)]
+        crate::verif_hooks::point("write", "remove_matched_blocks:delete");
         self.db.delete(&key).expect("delete matched blocks");
     }
 
@@ -469,6 +479,8 @@ impl Storage {
         {
             batch.delete(key).expect("batch delete should be ok");
         }
+        #[cfg(ckb_light_client_verif)]
+        crate::verif_hooks::point("write", "clear_matched_blocks:batch");
         batch.commit().expect("batch commit should be ok");
     }
 
@@ -489,6 +501,8 @@ impl Storage {
             value.extend(block_hash.as_slice());
             value.push(u8::from(proved));
         }
+        #[cfg(ckb_light_client_verif)]
+        crate::verif_hooks::point("write", "add_matched_blocks:put");
         self.db
             .put(key, &value)
             .expect("db put matched blocks should be ok");
@@ -539,6 +553,8 @@ impl Storage {
                 block_hash.as_slice(),
             )
             .expect("batch put should be ok");
+        #[cfg(ckb_light_client_verif)]
+        crate::verif_hooks::point("write", "add_fetched_header:batch");
         batch.commit().expect("batch commit should be ok");
     }
 
@@ -560,6 +576,8 @@ impl Storage {
         let key = Key::TxHash(&tx_hash).into_vec();
         let value = Value::Transaction(block_number, tx_index as TxIndex, tx);
         batch.put_kv(key, value).expect("batch put should be ok");
+        #[cfg(ckb_light_client_verif)]
+        crate::verif_hooks::point("write", "add_fetched_tx:batch");
         batch.commit().expect("batch commit should be ok");
     }
 
@@ -579,6 +597,8 @@ impl Storage {
     pub fn update_min_filtered_block_number(&self, block_number: BlockNumber) {
         let key = Key::Meta(MIN_FILTERED_BLOCK_NUMBER).into_vec();
         let value = block_number.to_le_bytes();
+        #[cfg(ckb_light_client_verif)]
+        crate::verif_hooks::point("write", "update_min_filtered_block_number:put");
         self.db
             .put(key, value)
             .expect("db put min filtered block number should be ok");
@@ -606,6 +626,8 @@ impl Storage {
     pub fn update_max_check_point_index(&self, index: CpIndex) {
         let key = Key::Meta(MAX_CHECK_POINT_INDEX).into_vec();
         let value = index.to_be_bytes();
+        #[cfg(ckb_light_client_verif)]
+        crate::verif_hooks::point("write", "update_max_check_point_index:put");
         self.db
             .put(key, value)
             .expect("db put max check point index should be ok");
@@ -632,6 +654,8 @@ impl Storage {
             batch.put_kv(key, value).expect("batch put should be ok");
             index += 1;
         }
+        #[cfg(ckb_light_client_verif)]
+        crate::verif_hooks::point("write", "update_check_points:batch");
         batch.commit().expect("batch commit should be ok");
     }
 
@@ -653,6 +677,8 @@ impl Storage {
                         .expect("batch put should be ok")
                 }
             });
+        #[cfg(ckb_light_client_verif)]
+        crate::verif_hooks::point("write", "update_block_number:batch");
         batch.commit().expect("batch commit should be ok");
     }
 
@@ -850,6 +876,8 @@ impl Storage {
                 )
                 .expect("batch put should be ok");
         }
+        #[cfg(ckb_light_client_verif)]
+        crate::verif_hooks::point("write", "filter_block:batch");
         batch.commit().expect("batch commit should be ok");
     }
 
@@ -1009,6 +1037,8 @@ impl Storage {
                 .expect("batch put should be ok");
         }
 
+        #[cfg(ckb_light_client_verif)]
+        crate::verif_hooks::point("write", "rollback_to_block:batch");
         batch.commit().expect("batch commit should be ok");
     }
 
